@@ -722,8 +722,10 @@ def propagate_atom_copies(fn) -> int:
         stored_local = {n.id for n in own if isinstance(n, ast.Name) and isinstance(n.ctx, (ast.Store, ast.Del))} | {a.arg for a in fn.args.args + fn.args.kwonlyargs + fn.args.posonlyargs} \
             | ({fn.args.vararg.arg} if fn.args.vararg else set()) | ({fn.args.kwarg.arg} if fn.args.kwarg else set())
         nested_names = {x.id for sc in _nested_scopes(fn) for x in ast.walk(sc) if isinstance(x, ast.Name)}
+        unstable = _unstable_paths(fn)
         cands = [st for st in own if isinstance(st, ast.Assign) and len(st.targets) == 1 and isinstance(st.targets[0], ast.Name) and is_new(st.targets[0].id)
-                 and _atom(st.value, stored_local) and st.targets[0].id not in nested_names and id(st) not in skip]
+                 and _atom(st.value, stored_local) and st.targets[0].id not in nested_names and id(st) not in skip
+                 and not any(isinstance(n, ast.Name) and n.id in unstable for n in ast.walk(st.value))]
         if not cands:
             break
         try:
